@@ -154,10 +154,12 @@ CHECKS = {
                 "further proved to simulate the walk of the specification on coordinate and TER records (Proofs/C01sim.v): the same wrap offsets, "
                 "generated chain names, atom identities, atom fields and keys, so that from the start of a file the model being built equals the "
                 "partition of the walk's keyed atoms for every run of well-formed records; a decimal numeral in a field is read as the value the "
-                "specification gives its text.",
+                "specification gives its text. DBREF / SEQADV / MODRES records are part of the specification (annotation of the first model that has "
+                "the chain, names and insertion codes compared in their stored case); the MODRES pass of the reader model is proved equal to the "
+                "specification's step on every structure (Proofs/C01annot.v).",
         "design_ref": "DESIGN.md section 6 C01",
-        "note": "Partial: the refinement read_pdb (render recs) = denote recs is checked by correspondence, not proved; DBREF/SEQADV/MODRES/SSBOND are "
-                "covered by the reader-model correspondence only; SEQRES validation is not modelled. Trusted: Coq kernel, T2 table translators, the "
+        "note": "Partial: the refinement read_pdb (render recs) = denote recs is checked by correspondence, not proved; SSBOND is "
+                "covered by the reader-model correspondence only (DBREF / SEQADV are specified and compared, not proved); SEQRES validation is not modelled. Trusted: Coq kernel, T2 table translators, the "
                 "binary64 parsing model (cross-validated against rustc), extraction, harness.",
         "technique": "Coq specification + reader model with proved structural lemmas; differential correspondence (implementation vs model vs specification)",
     },
